@@ -64,6 +64,18 @@ void h_tp2str_##U(void) { long c = nondet_long(); vstr_c8 out; out.appended = 0;
 H_TP2STR(ns, 1, 1000000000, 1000000000) H_TP2STR(us, 1, 1000000, 1000000) H_TP2STR(ms, 1, 1000, 1000)
 H_TP2STR(s, 1, 1, 0) H_TP2STR(min, 60, 1, 0) H_TP2STR(h, 3600, 1, 0) H_TP2STR(d, 86400, 1, 0)
 
+/* COARSE year contract (what the solvers CAN decide over the full 64-bit domain): the printed year lies within 400 years of the instant's
+   true position on the time axis:  (Y-400)*146097 <= 400*(days+719468) < (Y+400)*146097  (146097 days = 400 Gregorian years).
+   It rules out every wrapped / truncated / mis-scaled year (an error of 2^32 years, a lost era, a wrong epoch), not an off-by-a-few-days. */
+#define H_TP2STR_COARSE(U, UNIT_NUM) \
+void h_tp2str_coarse_##U(void) { long c = nondet_long(); vstr_c8 out; out.appended = 0; out.calls = 0; __verif_exc = 0; g_print_calls = 0; \
+  verif_inst_tp2str_##U##__i64_rvstr_c8(c, &out); \
+  mint secs = (mint)c * (mint)(UNIT_NUM); mint days = fdiv(secs, 86400); mint z400 = 400 * (days + 719468); \
+  VERIF_ASSERT("C14,C02", __verif_exc == 0 && g_print_calls == 1, "rendering a time point never raises and prints exactly once"); \
+  VERIF_ASSERT("C14", ((mint)g_year - 400) * 146097 <= z400 && z400 < ((mint)g_year + 400) * 146097, "the printed year is the year of the instant to within one 400-year era: never wrapped, truncated or mis-scaled, for every representable time point"); \
+  VERIF_ASSERT("C14", g_month >= 1 && g_month <= 12 && g_day >= 1 && g_day <= 31 && g_hour >= 0 && g_hour <= 23 && g_min >= 0 && g_min <= 59 && g_sec >= 0 && g_sec <= 59, "month, day, hour, minute and second are inside their ranges"); \
+  VERIF_CANARY(); }
+H_TP2STR_COARSE(s, 1) H_TP2STR_COARSE(h, 3600) H_TP2STR_COARSE(d, 86400)
 /* The full-domain proof of the calendar arithmetic (tp2str above, and a relational era-shift lemma) does not finish on any installed back
    end (SAT, z3, cvc5 bit-vectors, cvc5 integers: > 300 s each, also for |t| < 2^36 s).  The deciding check for the rendered civil date is
    therefore the BOUNDED native stand-in native.cpp (every day of a stated range of years), registered below and never counted as proved. */
@@ -91,8 +103,14 @@ void h_str2tp_##U(void) { vsv_c8 in; in.data = 0; in.size = nondet_size_t(); __v
 H_STR2TP(ns, 1, 1000000000) H_STR2TP(us, 1, 1000000) H_STR2TP(ms, 1, 1000) H_STR2TP(s, 1, 1)
 
 /*@jobs
+for U in s h d:
+  job entry=h_tp2str_coarse_{U} props=C14,C02 mode=direct unwind=4 backend=cvc5int timeout=900 qtimeout=300 tier=thorough
+for U in s min h d:
+  job entry=far_{U} props=C14,C15 mode=native bounded=2,000,000_pseudo-random_instants_over_the_whole_int64_range_(thorough:_20,000,000)_+_the_64_extreme_counts,_against_a_closed-form___int128_calendar desc=far_years:_the_rendered_ISO-8601_text_is_the_correct_proleptic-Gregorian_UTC_date-time_(no_wrapped_or_truncated_year)_and_parses_back_to_the_identical_time_point canary=off
 for U in ns us ms s:
   job entry=h_str2tp_{U} props=C15,C14 mode=direct backend=cvc5int qtimeout=300 tier=thorough
 for U in ns us ms s min h d:
   job entry=cal_{U} props=C14 mode=native bounded=every_day_of_years_-10400..+20000_(ns:_1680..2260),_2-3_times_of_day,_against_a_day-by-day_calendar desc=the_rendered_ISO-8601_text_is_the_correct_proleptic-Gregorian_UTC_date-time_and_parses_back_to_the_identical_time_point canary=off
+for U in s min h:
+  job entry=far_kf_{U} props=C15,C14 mode=native kf=KF-C15-lowest-day-parse bounded=the_extreme_counts_INT64_MIN..INT64_MIN+31_(instants_in_the_lowest_representable_day) desc=an_instant_in_the_lowest_representable_day_renders_correctly_and_parses_back_to_the_identical_time_point canary=off
 @*/
